@@ -665,7 +665,7 @@ def gen_spend_variants(tier, seed):
     if quick:  # a tree that is a single leaf (no merkle path), all hash types
         cases += [{"n": 2, "k": 2, "kind": "multi", "leaf": 0, "nin": 1, "idx": 0, "nout": 1, "ht": ht, "dim": "hash-type"} for ht in HASH_TYPES]
     # SIGHASH_SINGLE without a matching output is invalid (BIP341): input 1 of 2, one output
-    for n, k in trees[:1]:
+    for n, k in [(3, 2)]:  # (a MuSig leaf needs k >= 2: not trees[0], which is 1-of-2 in the thorough tier)
         for kind in ("multi", "musig"):
             for ht in (3, 0x83):
                 cases.append({"n": n, "k": k, "kind": kind, "leaf": 0, "nin": 2, "idx": 1, "nout": 1, "ht": ht, "dim": "single-no-output"})
